@@ -116,13 +116,19 @@ theorem cryptSha512_good {D : Digests} {p s H : Bytes} (hs : checkBadSaltChars s
     exact emitSha_good f1 f2 g1 (permEncode_safe _ _) (by rw [permEncode_length, f3, f4, f6]; omega)
 
 
-theorem parseSunmd5_bound {s : Bytes} {P : SunParsed} (h : parseSunmd5 s = .ok P) : P.saltlen + 24 ≤ 384 := by
-  unfold parseSunmd5 at h
+theorem sunStep2_bound {s : Bytes} {n p : Nat} {P : SunParsed} (h : sunStep2 s n p = .ok P) : P.saltlen + 24 ≤ 384 := by
+  unfold sunStep2 at h
   simp only [] at h
   have hc : Gen.CRYPT_OUTPUT_SIZE = 384 := by decide
   have hb : Gen.SUNMD5_BARE_OUTPUT_LEN = 22 := by decide
   repeat' (split at h)
   all_goals first | (cases h; done) | (cases h; simp only [hc, hb] at *; omega)
+
+theorem parseSunmd5_bound {s : Bytes} {P : SunParsed} (h : parseSunmd5 s = .ok P) : P.saltlen + 24 ≤ 384 := by
+  unfold parseSunmd5 at h
+  simp only [] at h
+  repeat' (split at h)
+  all_goals first | (cases h; done) | exact sunStep2_bound h
 
 theorem sunmd5_facts : (Gen.perm_sunmd5.map (fun x => x.2.2.2)).sum = 22 := by decide
 
